@@ -127,6 +127,9 @@ Proof.
   rewrite (lookup_weaken _ _ _ _ F S) in E. discriminate.
 Qed.
 
+Lemma map_sub_size (a b : store) : a ⊆ b -> (size a <= size b)%nat.
+Proof. intros S. rewrite <- !(size_dom (D:=gset handle)). apply subseteq_size, subseteq_dom, S. Qed.
+
 Definition rec_total (rec : store -> handle -> outcome (bool * store)) (n : nat) : Prop :=
   forall st key, (size st < n)%nat -> exists b st', rec st key = Done (b, st') /\ st' ⊆ st.
 
@@ -136,7 +139,7 @@ Proof.
   intros HR. induction ks as [|k ks IH]; intros st Hs; cbn [rel_fold].
   - exists st. split; [reflexivity|done].
   - destruct (HR st k Hs) as (b & st1 & E1 & S1). rewrite E1.
-    pose proof (map_subseteq_size _ _ S1) as Hsz.
+    pose proof (map_sub_size _ _ S1) as Hsz.
     destruct (IH st1) as (st' & E' & S'); [lia|].
     exists st'. split; [exact E'|]. etrans; eassumption.
 Qed.
@@ -239,7 +242,7 @@ Proof.
   intros E. destruct (rel_rec_good _ _ _ _ _ E) as (S & N & B & C & R).
   split; [exact B|]. intros h. split.
   - intros Rh. induction Rh as [k Hs|k h v c Rh IH Hh Hc Hs]; [exact N|].
-    eapply C; eassumption.
+    exact (C h v Hh IH c Hc).
   - intros NR. destruct (st' !! h) as [x|] eqn:F.
     + symmetry. eapply lookup_weaken; eassumption.
     + destruct (st !! h) as [w|] eqn:G; [|reflexivity].
